@@ -92,6 +92,93 @@ def _read(program, stream, multipart=True):
     return res
 
 
+def loop_survival_rule(ctx, program, rid):
+    for uid, q in (("jupyter_kernel.py::Kernel.housekeep_run", "self.housekeep_q.get"),):
+        pol = FlowPolicy(program, may_raise_all=True, cancel=False, events=[q], record_atoms=False, no_raise={q})
+        pol.trace_handlers = True
+        pol.loop_unroll = 2
+        out = run_flow(program, uid, pol)
+        dead, n_handled = [], 0
+        for k, c, d in exits(out):
+            evs = [e for e in c.trace if (e[0] == "call" and e[1] == q) or (e[0] == "handler" and len(e) > 3 and e[3] == "Exception")]
+            hs = [i for i, e in enumerate(evs) if e[0] == "handler"]
+            if hs:
+                n_handled += 1
+                if not any(e[0] == "call" for e in evs[hs[0] + 1:]):
+                    dead.append(f"{k} after the handler at line {evs[hs[0]][1]}")
+            if k == "raise" and getattr(c.env.get("$exc"), "cls", "") == "Exception":
+                dead.append(f"escapes: {d}")
+        ctx.check(n_handled > 0 and not dead, rid, uid, "the loop continues after a failing item",
+                  msg=f"{uid}: an exception while handling one item ends the loop ({sorted(set(dead))[:2]}): every later request is left without its idle status / reply",
+                  key="housekeeping survives", node=program.func(uid), rel="jupyter_kernel.py")
+
+
+SHARED_ITER_EXEMPT = {
+    # one named function, with the reason
+    "session_shutdown": "end of the session: the servers are closed first, no request is served afterwards (outside what C19 states)",
+}
+SNAPSHOT_FUNCS = {"list", "tuple", "set", "sorted", "frozenset", "dict"}
+MUTATORS = {"add", "discard", "remove", "append", "pop", "clear", "update", "extend", "insert", "popitem", "setdefault"}
+
+
+def shared_iteration_rule(ctx, program, rid):
+    """Kernel: loops with an await in the body whose iterable is (an alias of) an attribute container that some method mutates in place."""
+    cls = program.cls("jupyter_kernel.py::Kernel")
+    mutated = {}
+    for n in ast.walk(cls):
+        if isinstance(n, ast.Call) and isinstance(n.func, ast.Attribute) and n.func.attr in MUTATORS and isinstance(n.func.value, ast.Attribute):
+            mutated.setdefault(norm(n.func.value), []).append(n.lineno)
+        if isinstance(n, (ast.Delete, ast.Assign)):
+            for t in n.targets:
+                if isinstance(t, ast.Subscript) and isinstance(t.value, ast.Attribute):
+                    mutated.setdefault(norm(t.value), []).append(n.lineno)
+    funcs = [f for f in ast.walk(cls) if isinstance(f, (ast.AsyncFunctionDef, ast.FunctionDef))]
+    # which shared attributes reach which parameter (one level: self.method(self.attr, ...))
+    param_alias = {}
+    for n in ast.walk(cls):
+        if isinstance(n, ast.Call) and isinstance(n.func, ast.Attribute) and isinstance(n.func.value, ast.Name) and n.func.value.id == "self":
+            callee = [f for f in funcs if f.name == n.func.attr]
+            if not callee:
+                continue
+            params = [a.arg for a in callee[0].args.args][1:]
+            for p, a in zip(params, n.args):
+                if isinstance(a, ast.Attribute) and norm(a) in mutated:
+                    param_alias.setdefault((callee[0].name, p), set()).add(norm(a))
+    n_loops = 0
+    for fn in [f for f in funcs if isinstance(f, ast.AsyncFunctionDef)]:
+        for loop in [l for l in ast.walk(fn) if isinstance(l, ast.For)]:
+            if not any(isinstance(x, ast.Await) for st in loop.body for x in ast.walk(st)):
+                continue
+            # the containers the iterable may denote without a copy in between
+            live = set()
+            stack = [loop.iter]
+            while stack:
+                e = stack.pop()
+                if isinstance(e, ast.IfExp):
+                    stack += [e.body, e.orelse]
+                elif isinstance(e, ast.Call) and isinstance(e.func, ast.Attribute) and e.func.attr in ("items", "keys", "values") and not e.args:
+                    stack.append(e.func.value)
+                elif isinstance(e, ast.Call):
+                    continue  # list(x), sorted(x), x.copy(): a snapshot (or something else that is not the shared object)
+                elif isinstance(e, ast.Attribute) and norm(e) in mutated:
+                    live.add(norm(e))
+                elif isinstance(e, ast.Name) and (fn.name, e.id) in param_alias:
+                    live |= param_alias[(fn.name, e.id)]
+            if not live and not any(isinstance(x, (ast.Attribute, ast.Name)) for x in ast.walk(loop.iter)):
+                continue
+            n_loops += 1
+            uid = f"jupyter_kernel.py::Kernel.{fn.name}"
+            if fn.name in SHARED_ITER_EXEMPT:
+                ctx.ok(rid, uid, f"loop over `{short(loop.iter)}`: exempt - {SHARED_ITER_EXEMPT[fn.name]}")
+                continue
+            ctx.check(not live, rid, uid, f"loop over `{short(loop.iter)}` (awaits inside) walks a snapshot",
+                      msg=f"Kernel.{fn.name}: `for {short(loop.target)} in {short(loop.iter)}` awaits inside the loop while it walks {sorted(live)} itself, which other coroutines change "
+                      f"(lines {sorted({l for k in live for l in mutated[k]})[:4]}): a subscriber connecting or hanging up during a broadcast raises RuntimeError in the sender - the request in flight gets no "
+                      f"reply/idle and the shell listener stops", key=f"live iteration {fn.name} {sorted(live)}", node=loop, rel="jupyter_kernel.py")
+    if n_loops < 2:
+        raise AnalysisError(f"Kernel: only {n_loops} awaiting loops found")
+
+
 def run(ctx):
     program = ctx.program
     for m in ("read_bytes", "recv", "send", "send_multipart", "send_cmd", "handshake"):
@@ -316,6 +403,13 @@ def run(ctx):
     ctx.check(bool(dumps) and (not raw or tolerant), "R19.7", "jupyter_kernel.py::Kernel.send.encode", "message JSON is ASCII-escaped before the UTF-8 encode",
               msg=f"Kernel.send.encode: `{short(raw[0]) if raw else ''}` keeps non-ASCII characters and str_to_bytes encodes strictly: a lone surrogate in printed text, an exception message or the cell "
               f"source raises UnicodeEncodeError inside the send - the reply and the idle status are lost and the shell channel is closed", key="json ascii escaping", node=enc, rel="jupyter_kernel.py")
+
+    ctx.rule("R19.8", "service loops of the kernel survive one failing item: after an exception while handling one queue item (a subscriber that hung up during the "
+             "stdout broadcast) housekeeping still takes the next item - otherwise the post-execute handshake is never answered and no request gets its idle", floor=1)
+    loop_survival_rule(ctx, program, "R19.8")
+    ctx.rule("R19.9", "a container shared between the kernel's coroutines (the iopub subscriber set, the task table) is never iterated in place across an await while another "
+             "coroutine adds/removes elements: the loop walks a snapshot (RuntimeError 'changed size during iteration' would drop the request in flight)", floor=2)
+    shared_iteration_rule(ctx, program, "R19.9")
 
     ctx.rule("R19.5", "a subscriber connection that is closed is also taken out of the broadcast set (a later broadcast to a closed writer resets the shell channel)", floor=1)
     uid = "jupyter_kernel.py::Kernel.iopub_listen"
